@@ -114,9 +114,19 @@ def run(tier, seed):
     rep.floor('TAINT.sink', nsink, 8)
     # ---- stream-controlled loops
     nl = 0
+    # functions that re-seat the controlling stream (open the next input file or terminate): an iteration that goes through one of them
+    # makes progress along the finite file list instead of along the stream (that the file index advances is C11's READER rule)
+    reseat = set()
+    for fn in fns:
+        for c_ in astu.calls(fn['body']):
+            if c_['callee']['qn'].endswith('::reset') and 'unique_ptr' in c_['callee']['qn'] and 'fin' in astu.src(c_.get('obj') or (c_.get('args') or [None])[0]):
+                reseat.add(fn['name'])
     for fn in fns:
         F = cppflow.Flow(fn, keep_io=True)
         ex = {x.id: s for x, s, vs in taint.extraction_nodes(F)}
+        for c_ in F.nodes(kind='call'):
+            if c_.stmt[1].split('::')[-1] in reseat and fn['name'] not in reseat:
+                ex[c_.id] = 'reseat'
         dom = F.dom
         for nnode in F.g.nodes:
             for h in nnode.succ:
